@@ -16,6 +16,10 @@
 (*           3: the pooled connection has rolled a branch back in phase one before (failed statement); *)
 (*           2: another global transaction runs its phase one on the pool between this branch's       *)
 (*              phase one and its phase two (its own statements are not part of the trace)            *)
+(*   early   (leg xab-early only) the coordinator does not wait for the application: it sends BranchRollback   *)
+(*           while phase one is still running - when the named statement of the branch is in flight at the     *)
+(*           database (held in memsql's statement gate): XA START | the business statement | XA END |          *)
+(*           XA PREPARE; afterwards it retries the rollback as `how` says                                      *)
 EXTENDS Integers, Sequences, TLC, IOUtils
 
 Scen == {s \in [kind : {"ins", "upd", "del", "sel"}, mode : {"auto", "explicit"}, reg : {"ok", "fail", "neterr"},
@@ -34,9 +38,20 @@ Scen == {s \in [kind : {"ins", "upd", "del", "sel"}, mode : {"auto", "explicit"}
 \* (xa_branch_execution_timeout); the client must then end the branch, roll it back and return an error
 SlowScen == {s \in Scen : s.failAt = 0 /\ s.reg = "ok" /\ s.how = "once" /\ s.reuse = 0}
 
+\* the early leg: the coordinator's rollback overtakes phase one (XABranch!P2Early).  The statement the rollback
+\* arrives at is the client's statement number StmtNo(early); a database fault, if any, hits that statement or a later
+\* one (an earlier fault ends phase one before the rollback could arrive: that is a scenario of the base set).
+StmtNo(e) == CASE e = "start" -> 1 [] e = "dml" -> 2 [] e = "end" -> 3 [] e = "prepare" -> 4
+EarlyScen == {s \in [kind : {"upd", "sel"}, mode : {"auto", "explicit"}, reg : {"ok"}, failAt : {0, 2, 3, 4}, p2 : {"rollback"},
+                     how : {"once", "retry", "restart"}, ver : {"8.0.28", "8.0.30"}, reuse : {0, 1}, ca : {0},
+                     early : {"start", "dml", "end", "prepare"}] :
+                /\ s.failAt # 0 => (s.failAt >= StmtNo(s.early) /\ s.how = "once" /\ s.reuse = 0)
+                /\ s.reuse = 1 => s.how = "once"}
+
 VARIABLE sc
 GenInit == sc \in Scen
 GenInitSlow == sc \in SlowScen
+GenInitEarly == sc \in EarlyScen
 GenNext == UNCHANGED sc
 ScenFile == IOEnv.SCEN_FILE
 Dump ==
